@@ -14,8 +14,6 @@ Kinds (the ones the property enumerates): fs / fu fixed point signed / unsigned,
 ps / pu power of two signed / unsigned, t ternary, bpm binary +-1, b01 binary 0/1,
 float.  This module imports neither tensorflow nor qkeras at import time.
 """
-import random
-
 from vf.ref import types as ty
 
 KINDS = ["fs", "fu", "ps", "pu", "t", "bpm", "b01", "float"]
